@@ -2326,4 +2326,23 @@ theorem refused_iff (n : Node) (σ : St) : refused n σ = true ↔ ∃ i, i < n.
   · rintro ⟨i, hi, h⟩
     exact ⟨i, hi, by simp [h, Val.isNd]⟩
 
+
+/-! ## hand-wired flows -/
+
+theorem startCount_allOf (k : Nat) : startCount .allOf k = 1 := by
+  cases k <;> rfl
+
+theorem iterBody_one (kp : Nat → Bool) (body : List Node) (σ : St) :
+    iterBody kp body 1 σ = runBody kp body 0 σ := by
+  simp only [iterBody]
+  cases runBody kp body 0 σ <;> rfl
+
+/-- with the accumulating trigger (`n << ui_nodes`) the hand-wired chain is entered exactly once after
+the UI nodes, however many of them survive: the run is the run of the model -/
+theorem runWired_allOf (n : Node) (σ : St) : runWired .allOf n σ = run n σ := by
+  cases n with
+  | leaf f srcs => rfl
+  | mac args body rets oh s =>
+    simp only [runWired, run, startCount_allOf, iterBody_one]
+
 end PwVerif.Macro
